@@ -221,6 +221,37 @@ def run_type(res, T, spec_, rng, sentinels):
         B3 = cls()
         alias_scan(res, A3, B3, f"{T}:generated-vs-fresh", desc)
         differential(res, api.Synth(A3), api.Synth(B3), "generated-vs-fresh", T, rng, spec_["edits"] // 2, desc)
+        # --- copy.deepcopy of a module that is wired into a project (a MultiCtl drives its neighbours; a module inside a
+        #     constructed MetaModule is exposed through it): the copy is edited, the project it was copied out of stays as it is;
+        #     then the other way round
+        import copy
+        try:
+            A4 = make_module(seed, idx + 1100, tier, T) if rnd % 2 else cls()
+            holder = api.Project()
+            host = api.m.MetaModule(project=holder) if rnd % 2 == 0 else None
+            holder.attach_module(A4)
+            amp = holder.new_module(api.m.Amplifier)
+            if T == "MultiCtl":
+                A4.mappings.values[0] = A4.Mapping((0, 32768, 1, 0, 0, 0, 0, 0))
+            holder.connect(A4, amp)
+            holder.connect(amp, holder.output)
+            if host is not None:
+                host.user_defined_controllers = 2
+                host.mappings.values[0] = host.Mapping((A4.index, 0))
+                host.mappings.values[1] = host.Mapping((amp.index, 0))
+                host.update_user_defined_controllers()
+            whole = api.Synth(host) if host is not None else holder
+            C4 = copy.deepcopy(A4)
+            res.count("deep_copies_of_wired_modules")
+        except Exception as e:
+            res.count("deep_copy_unusable")
+            res.hist("deep_copy_unusable_why", f"{T}:{type(e).__name__}")
+        else:
+            if C4.parent is holder and C4 not in holder.modules:
+                res.count("observation_deep_copy_keeps_original_parent")
+            differential(res, api.Synth(C4), whole, "deepcopy-of-wired", T, rng, spec_["edits"], desc)
+            C5 = copy.deepcopy(A4)
+            differential(res, api.Synth(A4), api.Synth(C5), "deepcopy-of-wired-reverse", T, rng, spec_["edits"] // 2, desc)
     # sentinels of every type must not have moved
     for name, (obj, before) in sentinels.items():
         res.count("sentinel_comparisons")
@@ -466,9 +497,95 @@ def run_shard(spec_, res):
     embedded_project_clones(res, rng, spec_["types"], 12 if spec_["tier"] == "quick" else 120)
     if spec_["shard"] == 0:
         run_containers(res, spec_, rng)
+    if spec_["shard"] == 1:
+        failed_nested_loads(res, rng, 150 if spec_["tier"] == "quick" else 1500)
     for name, msg in monitors.take_failures():
         res.violation(f"C17:ambient:{name}", msg, {"monitor": name})
     res.exhaustive = True
+
+
+def failed_nested_loads(res, rng, n_failures):
+    """Loads that FAIL somewhere inside a nested container (the project of a MetaModule, a Sampler's effect, several levels
+    down) leave nothing behind: afterwards valid nested files load as they did before, and objects loaded earlier clone as
+    they did before."""
+    import struct
+    import rv.api as api
+    from .. import iffparse
+
+    def nest(depth, leaf):
+        obj = leaf
+        for d in range(depth):
+            if d % 3 == 2:
+                smp = api.m.Sampler()
+                smp.effect = api.Synth(obj)
+                obj = smp
+            else:
+                q = api.Project()
+                q.attach_module(obj)
+                obj = api.m.MetaModule(project=q)
+        return obj
+
+    def poison(raw, how):
+        """Break the innermost container of the file (the outer levels stay well-formed)."""
+        chunks = [(c[0], c[1]) for c in iffparse.parse(raw)]
+        for k, (cid, pl) in enumerate(chunks):
+            if cid == b"CHDT" and pl[:4] in (b"SVOX", b"SSYN"):
+                inner = poison(pl, how)
+                if inner is not None:
+                    chunks[k] = (cid, inner)
+                    return iffparse.build(chunks)
+        # innermost level: no nested container below
+        for k, (cid, pl) in enumerate(chunks):
+            if cid == b"STYP" and pl.rstrip(b"\0") != b"Output":
+                if how == "unknown-type":
+                    chunks[k] = (cid, b"No such module\0")
+                elif how == "short-cval":
+                    chunks.insert(k + 1, (b"CVAL", b"\x01"))
+                else:
+                    chunks.insert(k + 1, (b"SFIN", b""))
+                return iffparse.build(chunks)
+        return None
+
+    good_objs = [nest(d, api.m.Amplifier(volume=300 + d)) for d in (1, 2, 3, 5)]
+    good = [api.Synth(o).read() for o in good_objs]
+    try:
+        baseline = [snapshot.snap_synth(workload.load(g)) for g in good]
+        loaded_before = [workload.load(g) for g in good]
+    except Exception as e:
+        res.violation(f"C17:nested-load-raises:{workload.exc_key(e)}", f"valid nested file does not load: {e!r}", {"family": "failed-nested-loads"})
+        return
+    failures = 0
+    attempts = 0
+    while failures < n_failures and attempts < n_failures * 3:
+        attempts += 1
+        g = good[attempts % len(good)]
+        bad = poison(g, ("unknown-type", "short-cval", "short-sfin")[attempts % 3])
+        if bad is None:
+            continue
+        try:
+            workload.load(bad)
+            res.count("poisoned_nested_files_that_loaded")
+        except Exception:
+            failures += 1
+    res.count("failed_nested_loads", failures)
+    case = {"family": "failed-nested-loads", "failures": failures}
+    res.case(("failed-nested-loads", failures))
+    for k, g in enumerate(good):
+        res.count("b_comparisons")
+        try:
+            now = snapshot.snap_synth(workload.load(g))
+            cl = loaded_before[k].module.clone()
+        except Exception as e:
+            res.violation(f"C17:after-failed-loads:{type(e).__name__}", f"after {failures} loads that failed inside nested containers, a valid nested file / a clone of an object loaded earlier "
+                                                                         f"raises {e!r}", case)
+            return
+        if now != baseline[k]:
+            d = snapshot.diff(baseline[k], now)
+            res.violation(f"C17:after-failed-loads:{snapshot.field_key(d[0][0]) if d else '?'}", f"after {failures} failed nested loads the same valid file loads differently: {d[:2]}", case)
+            return
+        if snapshot.snap_module(cl, "synth") != snapshot.snap_module(loaded_before[k].module, "synth"):
+            res.violation("C17:after-failed-loads:clone", f"after {failures} failed nested loads a clone of an earlier loaded object differs from it", case)
+            return
 
 
 def embedded_project_clones(res, rng, types, n):
